@@ -306,7 +306,10 @@ CLAIMED = {
         "takes and commits): a storable event whose id is stored, being written or queued changes nothing "
         "(C06_kv_resubmission_refused) and, under every interleaving, the events acknowledged as new have pairwise distinct "
         "ids (C06_kv_accepted_once, C06_sql_accepted_once); tied by the in-flight scenario with the real writer thread "
-        "(another writer holds the write lock while the event is resubmitted).",
+        "(another writer holds the write lock while the event is resubmitted). Props/C06Storable.lean: the refusal at the door, "
+        "kv.check_storable, is modelled (record encodable per Model/MsgPack and every index key + 38-byte suffix within LMDB's 511 "
+        "bytes): C06_kv_storable_write_succeeds (an event that passed the check cannot abort its write for size or range), "
+        "C06_kv_unstorable_has_long_key; tied to the real function on keys of 440-480 bytes and out-of-range numbers.",
         "Trusted: the 'one OK frame per EVENT' part is observed on the real handler, its proof belongs to the protocol "
         "model (C13/C19); quiescence is established by settling the loop and draining the writer.",
         "DESIGN.md §6 C06",
